@@ -124,7 +124,7 @@ Proof. exact staged_fault_safe_proof. Qed.
 Print Assumptions staged_fault_safe.
 
 (* all_file_functions_safe: in the table regenerated from the Go sources, every function that writes one
-   output through a staging helper and is not one of the four undeferred functions (panic_unsafe) keys its
+   output through a staging helper and is not one of the three undeferred pkg/pdfcpu functions WriteReader / CopyFile / Write (panic_unsafe) keys its
    deferred decision on a completion flag; so api_staged_fault_safe* / pdf_staged_fault_safe apply to it
    with k = KFlag for every ending of the body, panic included *)
 Theorem all_file_functions_safe :
